@@ -33,7 +33,8 @@ Inductive action := AInit (i : nat) | ADeliver (i : nat) (w : wire).
 Definition robs : Type := (N * N * bool * bool * N * N * N * bool * N)%type.
 
 Record obs := mkObs {
-  o_class : N;                              (* 0 rejected, Failed() false; 1 rejected, Failed() true; 2 no error *)
+  o_class : N;                              (* 0 rejected, Failed() false; 1 rejected, Failed() true; 2 no error;
+                                               7 rejected by a machine inside the HandshakeManager (Failed() not visible) *)
   o_out : option (N * N * N * N);           (* produced packet: subtype, remote index, counter, noise message length *)
   o_res : option robs
 }.
@@ -108,7 +109,7 @@ Definition quad_eqb (a b : N * N * N * N) : bool :=
   let '(a1, a2, a3, a4) := a in let '(b1, b2, b3, b4) := b in (a1 =? b1) && (a2 =? b2) && (a3 =? b3) && (a4 =? b4).
 
 Definition obs_eqb (a b : obs) : bool :=
-  (o_class a =? o_class b) && option_eqb quad_eqb (o_out a) (o_out b) && option_eqb robs_eqb (o_res a) (o_res b).
+  ((o_class a =? o_class b) || ((o_class b =? 7) && ((o_class a =? 0) || (o_class a =? 1)))) && option_eqb quad_eqb (o_out a) (o_out b) && option_eqb robs_eqb (o_res a) (o_res b).
 
 Fixpoint set_nth {A} (l : list A) (i : nat) (x : A) : list A :=
   match l, i with
